@@ -371,12 +371,14 @@ def finalize(prop, tier, seed, res, t0, rule, level="exploration", assumptions=(
         inconc.append("required path classes / hooks with zero observations: " + ", ".join(missing))
     if res.evaluations < min_eval:
         inconc.append("too few evaluations: %d" % res.evaluations)
-    os.makedirs(os.path.join(VERIF, "replays"), exist_ok=True)
-    os.makedirs(os.path.join(VERIF, "evidence"), exist_ok=True)
+    # mutation runs (tools/run_seeded.py) redirect evidence and replays so that committed evidence is never overwritten by them
+    outroot = os.environ.get("VERIF_OUT_DIR", VERIF)
+    os.makedirs(os.path.join(outroot, "replays"), exist_ok=True)
+    os.makedirs(os.path.join(outroot, "evidence"), exist_ok=True)
     vio_lines = []
     for key, detail in sorted(unknown.items()):
         h = hashlib.sha1(key.encode()).hexdigest()[:12]
-        rp = os.path.join(VERIF, "replays", "%s-%s.json" % (prop, h))
+        rp = os.path.join(outroot, "replays", "%s-%s.json" % (prop, h))
         with open(rp, "w") as f:
             json.dump({"property": prop, "key": key, "tier": tier, "seed": seed, "detail": detail,
                        "count": res.violation_counts.get(key, 1), "replay": replay_info or {}}, f, indent=1)
@@ -408,7 +410,7 @@ def finalize(prop, tier, seed, res, t0, rule, level="exploration", assumptions=(
         "known_findings_hit": [k["what"] for k, _ in known_hit.values()],
         "inconclusive": inconc,
     }
-    with open(os.path.join(VERIF, "evidence", prop + ".json"), "w") as f:
+    with open(os.path.join(outroot, "evidence", prop + ".json"), "w") as f:
         json.dump(ev, f, indent=1)
     for hit, keys in known_hit.values():
         print("KNOWN-FINDING: property=%s %s" % (prop, hit["what"]), flush=True)
